@@ -57,6 +57,19 @@ type Sched struct {
 	// others until they block or finish, however many pause sites they cross.
 	PauseBudget int
 	pausesDone  int
+	// Hold (one long preemption): the task named HoldTask is, at its HoldNth park
+	// (counting only parks at HoldSite when that is set), kept off the schedule
+	// for as long as any other task that is not a lock-waiter is enabled. With
+	// HoldFirst the held task also runs before everything else until it gets
+	// there, so that the others execute entirely inside its pause.
+	HoldTask  string
+	HoldSite  string
+	HoldNth   int
+	HoldFirst bool
+	holdSeen  int
+	holding   *Task
+	holdDone  bool
+	holdIdle  int
 	pct       bool
 	pctPrio   map[int]int
 	pctChange map[int]bool
@@ -151,6 +164,12 @@ func (s *Sched) Yield(owner any, site string) {
 	}
 	t.parked = true
 	t.Site = site
+	if s.HoldTask != "" && !s.holdDone && s.holding == nil && t.Name == s.HoldTask && (s.HoldSite == "" || s.HoldSite == site) {
+		s.holdSeen++
+		if s.holdSeen == s.HoldNth {
+			s.holding = t
+		}
+	}
 	s.mu.Unlock()
 	<-t.wake
 }
@@ -250,6 +269,42 @@ func (s *Sched) StepAny() bool {
 	en := s.Enabled()
 	if len(en) == 0 {
 		return false
+	}
+	if s.HoldTask != "" && !s.holdDone {
+		if s.holding != nil {
+			// keep the held task out while somebody else can make progress
+			var others []*Task
+			progress := false
+			for _, t := range en {
+				if t != s.holding {
+					others = append(others, t)
+					if t.Site != "lockwait" {
+						progress = true
+					}
+				}
+			}
+			switch {
+			case progress:
+				en = others
+				s.holdIdle = 0
+			case s.holdIdle < 40:
+				// Nobody else is enabled right now, but somebody may be sleeping on the
+				// fake clock (batch coalescing, throttle polls): report "nothing to
+				// run" so that the caller lets simulated time pass, a bounded number
+				// of times, before the pause is given up.
+				s.holdIdle++
+				return false
+			default:
+				s.holdDone = true // nobody else can run: the pause ends here
+			}
+		} else if s.HoldFirst {
+			for _, t := range en {
+				if t.Name == s.HoldTask {
+					s.Release(t)
+					return true
+				}
+			}
+		}
 	}
 	if !s.pct {
 		s.Release(en[s.Choose(len(en))])
